@@ -19,8 +19,10 @@ Section HubThm.
   Notation port := (port V E).
   Notation state := (state V E).
   (* the evaluation task refreshes after its write; enable() forces the evaluation of all expressions *)
-  Notation step := (step V veqb E W feval deps coerce true true).
-  Notation run := (run V veqb E W feval deps coerce true true).
+  (* ... and whether disable() does too does not matter for what is proved here *)
+  Variable dfa : bool.
+  Notation step := (step V veqb E W feval deps coerce true true dfa).
+  Notation run := (run V veqb E W feval deps coerce true true dfa).
   Notation lasts := (lasts V E).
   Notation dep_off := (dep_off V E deps).
   Notation follows := (follows V veqb E W feval deps coerce).
@@ -639,18 +641,21 @@ Section HubThm.
     intros HI (Hp & Hevq & Hidle) H. cbn [Hub.step] in H. injection H as <-.
     set (x' := {| src := src (ports s p); last := last (ports s p); expr := expr (ports s p); evq := evq (ports s p);
                   ph := ph (ports s p); forced := forced (ports s p); en := false |}).
-    set (s' := set_port V E s p x').
-    assert (Hsame : ports s' p = x') by (subst s'; apply set_port_same).
-    assert (Hother : forall q, q <> p -> ports s' q = ports s q) by (intros q Hn; subst s'; apply set_port_other; exact Hn).
+    set (fa := if en (ports s p) && dfa then true else force_all s).
+    set (s' := {| ports := upd V E (ports s) p x'; all_ids := all_ids s; pass := pass s; force_all := fa |}).
+    assert (Hsame : ports s' p = x') by (subst s'; cbn [ports]; apply upd_eq).
+    assert (Hother : forall q, q <> p -> ports s' q = ports s q) by (intros q Hn; subst s'; cbn [ports]; apply upd_neq; exact Hn).
     assert (Hids : all_ids s' = all_ids s) by reflexivity.
     assert (Hpass : pass s' = pass s) by reflexivity.
-    assert (Hfa : force_all s' = force_all s) by reflexivity.
+    assert (Hfa : force_all s' = true \/ force_all s' = force_all s).
+    { subst s' fa. cbn [force_all]. destruct (en (ports s p) && dfa); [left|right]; reflexivity. }
     assert (HLo : forall r, r <> p -> lasts s' r = lasts s r).
     { intros r Hn. unfold Hub.lasts. rewrite Hids, (Hother r Hn). reflexivity. }
     assert (HEo : forall d, d <> p -> en (ports s' d) = en (ports s d)) by (intros d Hn; rewrite (Hother d Hn); reflexivity).
     clearbody s'.
     constructor; rewrite ?Hids, ?Hpass.
-    - intros q e Hq He. destruct (Nat.eq_dec q p) as [->|Hn].
+    - intros q e Hq He. destruct Hfa as [Ht|Hfa]; [unfold covered; right; right; left; exact Ht|].
+      destruct (Nat.eq_dec q p) as [->|Hn].
       + unfold covered. left. rewrite Hsame. reflexivity.
       + rewrite (Hother q Hn) in He.
         destruct (in_dec Nat.eq_dec p (deps e)) as [Hin|Hnin].
